@@ -321,6 +321,9 @@ def consume_partial(gen, dev, tagged):
     state = {"item": False}
     gen._indents = []
     gen._rows = []
+    # the observation device of this runner, not an output of the generator: TreeGenerator.block() does not
+    # unwind it when the stream ends with an error, and nothing in annet reads it
+    gen._block_path = []
     orig = gen._append_text
 
     def spy(text):
@@ -415,9 +418,118 @@ def observe_names(case, policies, pl):
     return {"pfx": pfx, "mangle": mangle}
 
 
+# ---------------------------------------------------------------------------------------
+# sessions: generator OBJECTS are built once and run for several devices in sequence, as a process that
+# handles more than one device does (PartialGenerator.__call__ re-initialises _rows/_indents: objects are
+# meant to be run again).  The generators read their inputs from the device they are given, so every run
+# has its own policies / entity sets; each object is run twice per device (the stream consumed row by row,
+# then the real _run_partial_generator), i.e. every run but the very first has a history.
+
+
+def make_session_generators():
+    class Policy(RG.RoutingPolicyGenerator):
+        def get_policies(self, device):
+            return device.c14["policies"]
+
+        def get_prefix_lists(self, device):
+            return device.c14["pl"]
+
+        def get_community_lists(self, device):
+            return device.c14["cl"]
+
+        def get_rd_filters(self, device):
+            return device.c14["rd"]
+
+    class Prefix(RG.PrefixListFilterGenerator):
+        def get_policies(self, device):
+            return device.c14["policies"]
+
+        def get_prefix_lists(self, device):
+            return device.c14["pl"]
+
+    class Community(RG.CommunityListGenerator):
+        def get_policies(self, device):
+            return device.c14["policies"]
+
+        def get_community_lists(self, device):
+            return device.c14["cl"]
+
+    class AsPath(RG.AsPathFilterGenerator):
+        def get_policies(self, device):
+            return device.c14["policies"]
+
+        def get_as_path_filters(self, device):
+            return device.c14["af"]
+
+    class Rd(RG.RDFilterFilterGenerator):
+        def get_policies(self, device):
+            return device.c14["policies"]
+
+        def get_rd_filters(self, device):
+            return device.c14["rd"]
+
+    class Frr(RG.CumulusPolicyGenerator):
+        def get_policies(self, device):
+            return device.c14["policies"]
+
+        def get_prefix_lists(self, device):
+            return device.c14["pl"]
+
+        def get_community_lists(self, device):
+            return device.c14["cl"]
+
+        def get_as_path_filters(self, device):
+            return device.c14["af"]
+
+    partial = [("policy", Policy(Storage())), ("prefix", Prefix(Storage())), ("community", Community(Storage())),
+               ("aspath", AsPath(Storage())), ("rd", Rd(Storage()))]
+    return {"partial": partial, "frr": [("frr", Frr())]}
+
+
+def run_in_session(case, objs):
+    """what one() does for a case, on the generator objects of the session"""
+    vendor = case["vendor"]
+    dev = DEVICES[vendor]()
+    try:
+        policies = build_policies(case, dev)
+        cl, pl, af, rd = build_entities(case)
+    except Exception as e:  # noqa
+        return {"build_error": type(e).__name__ + ":" + str(e)[:200]}
+    prog = norm_policies(policies)
+    names = observe_names(case, policies, pl)
+    policies = instrument(policies)
+    dev.c14 = {"policies": policies, "cl": cl, "pl": pl, "af": af, "rd": rd}
+    gens = {}
+    if vendor == "cumulus":
+        for name, g in objs["frr"]:
+            rows, err = consume_cumulus(g, dev)
+            gens[name] = {"rows": rows, "err": err, "runner": {"none": True}}
+    else:
+        for name, g in objs["partial"]:
+            if not g.supports_device(dev):
+                gens[name] = {"rows": [], "err": None, "runner": real_runner(g, dev)}
+                continue
+            rows, err = consume_partial(g, dev, tagged=(name == "policy"))
+            gens[name] = {"rows": rows, "err": err, "runner": real_runner(g, dev)}
+    return {"prog": prog, "gens": gens, "names": names}
+
+
+def session(case):
+    import logging
+    logging.disable(logging.CRITICAL)
+    objs = make_session_generators()
+    runs = []
+    for c in case["session"]:
+        fresh = one(c)                       # new objects, run once: the reference for "no history"
+        runs.append({"fresh": fresh, "run": run_in_session(c, objs)})
+    return {"session": runs}
+
+
 def one(case):
     import logging
     logging.disable(logging.CRITICAL)
+    if "session" in case:
+        return session(case)
     vendor = case["vendor"]
     dev = DEVICES[vendor]()
     try:
